@@ -22,7 +22,7 @@ STUBS = ["solvor.sat._verif_sink := harness event list (guarded hook, SOLVOR_VER
          "reduce_db sub-check: the constant 2000 inside the nested reduce_db code object is replaced by 2 in an in-memory copy "
          "of solve_sat (assumes behaviour is uniform in the threshold)"]
 ASSUMPTIONS = [
-    "literals are non-zero ints, assumptions mention only variables of the formula (documented input)",
+    "literals are non-zero ints (documented input); assumptions may mention variables that occur in no clause",
     "oracle: z3 on the propositional formula (independent of solvOR)",
     "hang detection: a path that does not return within the wall budget is replayed natively with a timeout and only then reported",
 ]
@@ -50,8 +50,8 @@ def zclause(c, xs):
     return z3.Or(*[zlit(l, xs) for l in c])
 
 
-def oracle_sat(clauses, assumptions, extra=()):
-    nv = max([abs(l) for c in clauses for l in c] + [abs(l) for l in assumptions] + [1])
+def oracle_sat(clauses, assumptions, extra=(), also_vars=()):
+    nv = max([abs(l) for c in clauses for l in c] + [abs(l) for l in assumptions] + [abs(l) for c in extra for l in c] + list(also_vars) + [1])
     xs = {v: z3.Bool("x%d" % v) for v in range(1, nv + 1)}
     sol = z3.Solver()
     for c in clauses:
@@ -112,9 +112,7 @@ def h_sat(s, formulas, assumption_sets, which, reduce_at=None, sym_budgets=True,
         vs = sorted({abs(l) for c in clauses for l in c})
         assumptions = [-vs[0]] + ([vs[-1]] if len(vs) > 2 else [])
     assumptions = list(assumptions)
-    nv = max([abs(l) for c in clauses for l in c] + [0])
-    if any(abs(l) > nv for l in assumptions):
-        s.assume(False)  # documented input: assumptions range over the formula's variables
+    # (assumptions may name variables that occur in no clause: they are simply fixed - "all assumption lists")
     solution_limit = s.int("solution_limit", 1, max_solution_limit)
     luby_factor, max_conflicts, max_restarts = 100, 100000, 10000
     if sym_budgets is True or sym_budgets == "all":
@@ -200,7 +198,7 @@ def h_sat(s, formulas, assumption_sets, which, reduce_at=None, sym_budgets=True,
         if is_block:
             blocking.append(tuple(cl))
             continue
-        q, qx = oracle_sat(clauses, [], extra=blocking)
+        q, qx = oracle_sat(clauses, [], extra=blocking, also_vars=[abs(l) for l in cl] + [abs(l) for l in assumptions])
         for l in cl:
             q.add(z3.Not(zlit(l, qx)))
         r = q.check()
@@ -347,6 +345,9 @@ def build_items(tier, rng, which):
     # (c) dirty clauses: duplicate literals, tautologies, unsorted, repeated clauses
     dirty = [random_cnf(rng, 3, rng.randint(2, 5), dirty=True) for _ in range(150 if q else 3000)]
     add("dirty3", dirty, [(), (-2,)], 10 if q else 40, **lim)
+    # (c0) degenerate formulas: no clauses, empty clauses (alone and among others), with assumptions on variables no clause mentions
+    degenerate = [[], [()], [(), ()], [(1,), ()], [(1, 2), (), (3,)], [(1,)], [(1, 2)], [(-1,), (1, 2)]]
+    add("degenerate", degenerate, [(), (2,), (-3, 1), (1, -1), (5,)], 4, params={"max_solution_limit": 3})
     # (c') sparse variable numbering ("any variable numbering"): the same kind of formulas renumbered through an injective map with gaps
     gapped = []
     for _ in range(60 if q else 1200):
